@@ -3,6 +3,7 @@ package c19
 
 import (
 	"encoding/json"
+	"errors"
 	"flag"
 	"fmt"
 	"os"
@@ -232,7 +233,7 @@ func compare(p *prepared, text string, res *emit.LexResult) error {
 	case end == "ERR" && !strings.HasPrefix(res.End, "ERR "):
 		return fmt.Errorf("the automaton stops in a non-accepting state at %d:%d (lexical error), the lexer reports %q%s", eline, ecol, res.End, ctx)
 	case end == "ERR":
-		if pos := fmt.Sprintf("input.txt:%d:%d", eline, ecol); !strings.Contains(res.End, pos) {
+		if pos := fmt.Sprintf("input.txt:%d:%d", eline, ecol); !rec.MentionsPos(res.End, "input.txt", eline, ecol) {
 			return fmt.Errorf("the lexical error is at %s, the lexer reports %q%s", pos, res.End, ctx)
 		}
 	}
@@ -342,6 +343,10 @@ func runBatch(ps []*prepared, cases []caseT) (failed *caseT, err error) {
 		names[p] = name
 	}
 	bin, err := b.Build()
+	if errors.Is(err, emit.ErrHarness) {
+		fmt.Println("HARNESS:", err)
+		os.Exit(4) // inconclusive: the export shim no longer fits the emitted code
+	}
 	if err != nil {
 		for _, p := range ps {
 			if strings.Contains(err.Error(), names[p]+"/") {
